@@ -51,6 +51,7 @@ func (db *DB) Close() error                      { return db.real.Close() }
 func (db *DB) RunValueLogGC(ratio float64) error { return db.real.RunValueLogGC(ratio) }
 
 func (db *DB) View(fn func(txn *Txn) error) error {
+	vsym.CrashPoint("badger.View")
 	if db.real.IsClosed() {
 		return badger.ErrDBClosed
 	}
@@ -61,6 +62,7 @@ func (db *DB) View(fn func(txn *Txn) error) error {
 }
 
 func (db *DB) Update(fn func(txn *Txn) error) error {
+	vsym.CrashPoint("badger.Update/begin")
 	if db.real.IsClosed() {
 		return badger.ErrDBClosed
 	}
@@ -72,6 +74,7 @@ func (db *DB) Update(fn func(txn *Txn) error) error {
 		if err := fn(&Txn{real: t}); err != nil {
 			return err
 		}
+		vsym.CrashPoint("badger.Update/before-commit")
 		if vsym.Fault("badger.Commit") {
 			if vsym.Fault("badger.Commit/persisted-anyway") {
 				failAfterCommit = true
@@ -83,6 +86,9 @@ func (db *DB) Update(fn func(txn *Txn) error) error {
 	})
 	if err == nil && failAfterCommit {
 		return inj("badger commit failed")
+	}
+	if err == nil {
+		vsym.CrashPoint("badger.Update/after-commit")
 	}
 	return err
 }
@@ -146,6 +152,7 @@ func (wb *WriteBatch) Set(key, val []byte) error {
 }
 
 func (wb *WriteBatch) Flush() error {
+	vsym.CrashPoint("badger.Flush/begin")
 	if wb.db.real.IsClosed() {
 		return badger.ErrDBClosed
 	}
@@ -158,6 +165,16 @@ func (wb *WriteBatch) Flush() error {
 		}
 		return inj("WriteBatch.Flush failed")
 	}
+	if vsym.CrashSelected("badger.Flush/mid") {
+		// the process dies while the batch is being written: an arbitrary subset reached the disk
+		for k := range wb.keys {
+			if vsym.CrashSubset(k) {
+				k := k
+				_ = wb.db.real.Update(func(t *badger.Txn) error { return t.Set(wb.keys[k], wb.vals[k]) })
+			}
+		}
+		vsym.CrashNow()
+	}
 	b := wb.db.real.NewWriteBatch()
 	defer b.Cancel()
 	for k := range wb.keys {
@@ -165,7 +182,11 @@ func (wb *WriteBatch) Flush() error {
 			return err
 		}
 	}
-	return b.Flush()
+	if err := b.Flush(); err != nil {
+		return err
+	}
+	vsym.CrashPoint("badger.Flush/after")
+	return nil
 }
 
 func (wb *WriteBatch) Cancel() {}
